@@ -379,6 +379,7 @@ func runAddCase(o *Oracle, c *AddCase, rep *Report) {
 	ids := make([][]uint32, c.Goroutines)
 	var dupOrRange atomic.Int64
 	var mu sync.Mutex
+	panicked := make(chan string, 1)
 	res := watchdog(200*time.Second, func() string {
 		var wg sync.WaitGroup
 		per := c.Total / c.Goroutines
@@ -390,8 +391,16 @@ func runAddCase(o *Oracle, c *AddCase, rep *Report) {
 			wg.Add(1)
 			go func(g, n int) {
 				defer wg.Done()
+				defer func() { // a panic inside AddRow (e.g. bbolt's own assertions under unsynchronised use) is a verdict, not a harness crash
+					if p := recover(); p != nil {
+						select {
+						case panicked <- fmt.Sprintf("goroutine %d: panic in AddRow: %v", g, p):
+						default:
+						}
+					}
+				}()
 				rr := NewRng(c.Seed + uint64(g))
-				for k := 0; k < n; k++ {
+				for k := 0; k < n && len(panicked) == 0; k++ {
 					row := map[string]string{"tag": fmt.Sprintf("g%d-%d", g, k), "col": fmt.Sprint(rr.Intn(5)), "w": fmt.Sprint(g)}
 					if rr.Chance(1, 3) {
 						row["opt"] = fmt.Sprint(rr.Intn(3))
@@ -415,14 +424,27 @@ func runAddCase(o *Oracle, c *AddCase, rep *Report) {
 				}
 			}(g, n)
 		}
-		wg.Wait()
+		done := make(chan struct{})
+		go func() { wg.Wait(); close(done) }()
+		select {
+		case p := <-panicked:
+			return "panic: " + p // the other goroutines may be stuck behind whatever the panicking one held: do not wait
+		case <-done:
+		}
+		select {
+		case p := <-panicked:
+			return "panic: " + p
+		default:
+		}
 		if err := w.Flush(); err != nil {
 			return "flush-err: " + err.Error()
 		}
 		return "ok"
 	})
-	for i := len(closers) - 1; i >= 0; i-- {
-		closers[i]()
+	if !strings.HasPrefix(res, "panic: ") { // after a panic the writer's state is unknown: leave it alone
+		for i := len(closers) - 1; i >= 0; i-- {
+			closers[i]()
+		}
 	}
 	rep.Eval(fmt.Sprintf("%v", *c), true)
 	rep.Count(fmt.Sprintf("writer=%s goroutines=%d total=%d", c.Writer, c.Goroutines, c.Total))
